@@ -410,6 +410,7 @@ Section ValueInd.
   Hypothesis HStr : forall s, P (VStr s).
   Hypothesis HList : forall l, Forall P l -> P (VList l).
   Hypothesis HMap : forall l, Forall (fun kv => P (snd kv)) l -> P (VMap l).
+  Hypothesis HArr : forall l, Forall (fun kv => P (snd kv)) l -> P (VArr l).
   Fixpoint value_ind2 (v : value) : P v :=
     match v with
     | VNull => HNull
@@ -423,8 +424,104 @@ Section ValueInd.
     | VMap l => HMap l ((fix go (l : list (bytes * value)) : Forall (fun kv => P (snd kv)) l :=
                            match l with [] => Forall_nil _
                            | kv :: r => Forall_cons kv (value_ind2 (snd kv)) (go r) end) l)
+    | VArr l => HArr l ((fix go (l : list (bytes * value)) : Forall (fun kv => P (snd kv)) l :=
+                           match l with [] => Forall_nil _
+                           | kv :: r => Forall_cons kv (value_ind2 (snd kv)) (go r) end) l)
     end.
 End ValueInd.
+
+(* ------------------------------------------------------------------ ArrayValue slots that carry names *)
+Fixpoint arr_items (i : N) (l : list (bytes * value)) : list (option bytes) :=
+  match l with
+  | [] => []
+  | (nm, x) :: r => match ser x with
+                    | Some t => Some (key_text (slot_key i nm) ++ t)
+                    | None => None end :: arr_items (i + 1) r
+  end.
+Lemma ser_arr : forall l, ser (VArr l) =
+  match opt_concat (arr_items 0 l) with Some body => Some (arr_text (length l) body) | None => None end.
+Proof. intros l. reflexivity. Qed.
+
+Definition key_ok (k : value) : Prop :=
+  match k with VInt z => int64_ok z = true | VStr s => len_ok s = true | _ => False end.
+
+Lemma parse_key : forall f k rest, key_ok k -> parse_value (S f) (key_text k ++ rest) = POk (k, rest).
+Proof.
+  intros f k rest H. destruct k; try contradiction; cbn [key_text key_ok] in *.
+  - repeat rewrite <- app_assoc. apply parse_int. exact H.
+  - apply parse_str. exact H.
+Qed.
+
+Lemma key_text_len : forall k, key_ok k -> (4 <= length (key_text k))%nat.
+Proof.
+  intros k H. destruct k; try contradiction; cbn [key_text].
+  - repeat rewrite app_length. cbn [length]. unfold dec_Z.
+    destruct (z <? 0)%Z; cbn [length]; [pose proof (dec_N_length (Z.abs_N z))|pose proof (dec_N_length (Z.to_N z))]; lia.
+  - unfold str_lit. repeat rewrite app_length. cbn [length]. pose proof (dec_N_length (N.of_nat (length s))). lia.
+Qed.
+
+Lemma slot_key_ok : forall i nm, i <= max_int -> len_ok nm = true -> key_ok (slot_key i nm).
+Proof.
+  intros i nm Hi Hn. unfold slot_key, int_name, atoi.
+  destruct (take_sign0 nm) as [neg r]. destruct (span_digits r) as [ds rest].
+  destruct ds as [|d ds]; [destruct nm; cbn [key_ok]; [unfold int64_ok, max_int in *; lia|exact Hn]|].
+  destruct rest; [|destruct nm; cbn [key_ok]; [unfold int64_ok, max_int in *; lia|exact Hn]].
+  destruct neg.
+  - destruct (val_digits (d :: ds) <=? max_int + 1) eqn:E; [|destruct nm; cbn [key_ok]; [unfold int64_ok, max_int in *; lia|exact Hn]].
+    destruct (bytes_eqb _ nm); [cbn [key_ok]; unfold int64_ok, max_int in *; lia|].
+    destruct nm; cbn [key_ok]; [unfold int64_ok, max_int in *; lia|exact Hn].
+  - destruct (val_digits (d :: ds) <=? max_int) eqn:E; [|destruct nm; cbn [key_ok]; [unfold int64_ok, max_int in *; lia|exact Hn]].
+    destruct (bytes_eqb _ nm); [cbn [key_ok]; unfold int64_ok, max_int in *; lia|].
+    destruct nm; cbn [key_ok]; [unfold int64_ok, max_int in *; lia|exact Hn].
+Qed.
+
+Lemma slot_key_canon : forall i nm, canon (slot_key i nm) = slot_key i nm.
+Proof. intros i nm. unfold slot_key. destruct (int_name nm); [reflexivity|]. destruct nm; reflexivity. Qed.
+
+Lemma slot_key_named : forall i nm, key_name (slot_key i nm) <> None.
+Proof. intros i nm. unfold slot_key. destruct (int_name nm); [discriminate|]. destruct nm; discriminate. Qed.
+
+Lemma arr_items_ok : forall l, Forall (fun kv => RT (snd kv)) l ->
+  forallb (fun kv => len_ok (fst kv) && serializable (snd kv)) l = true ->
+  forall i, i + N.of_nat (length l) <= max_int + 1 ->
+  exists body, opt_concat (arr_items i l) = Some body /\ (4 * length l <= length body)%nat /\
+    forall rest f, (2 * length (body ++ rest) + 2 <= f)%nat ->
+      parse_pairs f (N.of_nat (length l)) (body ++ rest) = POk (slot_pairs canon i l, rest).
+Proof.
+  induction 1 as [|[nm x] l Hx Hl IH]; intros Hs i Hi.
+  - exists []. split; [reflexivity|]. split; [simpl; lia|]. intros rest f Hf.
+    destruct f; [lia|]. rewrite parse_pairs_S. reflexivity.
+  - cbn [forallb fst snd] in Hs. apply andb_prop in Hs. destruct Hs as [Hsx Hsl].
+    apply andb_prop in Hsx. destruct Hsx as [Hk Hsx]. cbn [snd] in Hx.
+    destruct (Hx Hsx) as (t & Et & Lt & Pt). cbn [length] in Hi.
+    destruct (IH Hsl (i + 1)) as (body & Eb & Lb & Pb); [lia|].
+    assert (Kok : key_ok (slot_key i nm)) by (apply slot_key_ok; [lia|exact Hk]).
+    pose proof (key_text_len _ Kok) as Lk.
+    cbn [arr_items]. rewrite Et. rewrite opt_concat_cons, Eb.
+    exists ((key_text (slot_key i nm) ++ t) ++ body). split; [reflexivity|].
+    split. { repeat rewrite app_length. cbn [length]. lia. }
+    intros rest f Hf. destruct f as [|f]; [lia|]. rewrite parse_pairs_S.
+    replace (N.of_nat (length ((nm, x) :: l)) =? 0) with false by (cbn [length]; lia).
+    repeat rewrite <- app_assoc. repeat rewrite <- app_assoc in Hf. repeat rewrite app_length in Hf.
+    destruct f as [|f]; [lia|].
+    rewrite (parse_key f _ _ Kok).
+    rewrite Pt by (repeat rewrite app_length; lia).
+    replace (N.of_nat (length ((nm, x) :: l)) - 1) with (N.of_nat (length l)) by (cbn [length]; lia).
+    rewrite Pb; [|repeat rewrite app_length; lia].
+    cbn [slot_pairs]. reflexivity.
+Qed.
+
+Lemma build_map_named : forall kvs acc, Forall (fun kv : value * value => key_name (fst kv) <> None) kvs ->
+  exists m, build_map kvs acc = Some m.
+Proof.
+  induction kvs as [|[k v] kvs IH]; intros acc H; [exists acc; reflexivity|].
+  inversion H; subst. cbn [build_map]. cbn [fst] in H2. destruct (key_name k); [apply IH; assumption|congruence].
+Qed.
+
+Lemma slot_pairs_named : forall l i, Forall (fun kv : value * value => key_name (fst kv) <> None) (slot_pairs canon i l).
+Proof.
+  induction l as [|[nm x] l IH]; intros i; [constructor|]. cbn [slot_pairs]. constructor; [apply slot_key_named|apply IH].
+Qed.
 
 (* the array header "a:" n ":{" body "}" *)
 Lemma parse_array : forall f n body rest kvs,
@@ -450,7 +547,7 @@ Qed.
 
 Lemma roundtrip_all : forall v, RT v.
 Proof.
-  induction v as [| b | z | b | s | l IH | l IH] using value_ind2; intros Hs.
+  induction v as [| b | z | b | s | l IH | l IH | l IH] using value_ind2; intros Hs.
   - exists [78; 59]. split; [reflexivity|]. split; [simpl; lia|]. intros rest f Hf.
     destruct f; [simpl in Hf; lia|]. reflexivity.
   - destruct b.
@@ -488,6 +585,16 @@ Proof.
     rewrite (parse_array f (length l) body rest (key_pairs l)); [|lia|exact Lb|apply Pb; lia].
     destruct l as [|[k x] l]; [reflexivity|].
     rewrite sequential_keys. rewrite build_map_keys; [reflexivity|exact Hn|reflexivity].
+  - cbn [serializable] in Hs. apply andb_prop in Hs. destruct Hs as [Hl Hs]. unfold len_ok in Hl.
+    destruct (arr_items_ok l IH Hs 0) as (body & Eb & Lb & Pb); [clear - Hl; unfold bytes in *; lia|].
+    rewrite ser_arr, Eb. exists (arr_text (length l) body). split; [reflexivity|].
+    split; [unfold arr_text; repeat rewrite app_length; simpl; lia|].
+    intros rest f Hf. destruct f as [|f]; [lia|].
+    assert (Hlen : (length (body ++ [125%N] ++ rest) + 5 <= length (arr_text (length l) body ++ rest))%nat).
+    { unfold arr_text. repeat rewrite app_length. cbn [length]. pose proof (dec_N_length (N.of_nat (length l))). lia. }
+    rewrite (parse_array f (length l) body rest (slot_pairs canon 0 l)); [|lia|exact Lb|apply Pb; lia].
+    cbn [canon]. unfold arr_value. destruct (sequential 0 (slot_pairs canon 0 l)); [reflexivity|].
+    destruct (build_map_named (slot_pairs canon 0 l) [] (slot_pairs_named l 0)) as (m & Em). rewrite Em. reflexivity.
 Qed.
 
 (* ------------------------------------------------------------------ unserialize (serialize v) *)
@@ -499,7 +606,7 @@ Definition ends_ok (t : bytes) : Prop := exists r cl, t = r ++ [cl] /\ (cl = 59 
 
 Lemma ser_shape : forall v t, ser v = Some t -> starts_ok t /\ ends_ok t.
 Proof.
-  intros v t H. destruct v as [| b | z | b | s | l | l].
+  intros v t H. destruct v as [| b | z | b | s | l | l | l].
   - inversion H; subst. split; [exists 78, 59, []; auto|exists [78], 59; auto].
   - destruct b; inversion H; subst.
     + split; [exists 98, 58, [49; 59]; split; [reflexivity|]; auto|exists [98; 58; 49], 59; auto].
@@ -520,6 +627,11 @@ Proof.
     + exists ([97; 58] ++ dec_N (N.of_nat (length l)) ++ [58; 123] ++ body), 125.
       split; [repeat rewrite <- app_assoc; reflexivity|auto].
   - rewrite ser_map in H. destruct (opt_concat (map_items l)) as [body|]; [|discriminate].
+    inversion H; subst. unfold arr_text. split.
+    + eexists 97, 58, _. split; [reflexivity|]. auto 12.
+    + exists ([97; 58] ++ dec_N (N.of_nat (length l)) ++ [58; 123] ++ body), 125.
+      split; [repeat rewrite <- app_assoc; reflexivity|auto].
+  - rewrite ser_arr in H. destruct (opt_concat (arr_items 0 l)) as [body|]; [|discriminate].
     inversion H; subst. unfold arr_text. split.
     + eexists 97, 58, _. split; [reflexivity|]. auto 12.
     + exists ([97; 58] ++ dec_N (N.of_nat (length l)) ++ [58; 123] ++ body), 125.
